@@ -22,7 +22,9 @@ TypeFeatures == {"prim", "option", "vec_option", "map", "user", "generic", "over
 Decos == {"none", "swift_deco", "swift_decos2", "kotlin_deco", "redacted", "constraints", "item_serialized_as", "readonly"}
 \* hostile / hostile_multi: doc text (one line / the second of three lines) with the tokens that end or open a comment or a string in
 \* some target language: */ /* """ a trailing backslash. C15 judges where the text ends up; here the file must stay well formed.
-Docs == {"none", "all", "multiline", "hostile", "hostile_multi"}
+\* block: ONE doc attribute that spans several lines (a /** .. */ block comment): a backend that writes a prefix per attribute instead of per
+\* line leaves the later lines outside the comment
+Docs == {"none", "all", "multiline", "hostile", "hostile_multi", "block"}
 \* folder: folder-output mode with a second crate whose type is imported (import lines are part of the file)
 \* packages_single: package names of ONE segment (com.example.app is three): Kotlin / Scala / Go
 \* ts_special_mapped: TypeScript mappings for SPECIAL Rust types onto types with a custom JSON translation ("OffsetDateTime" = "Date",
